@@ -470,6 +470,7 @@ type sim struct {
 	listeners      map[int]net.Listener // by step index of the listen call
 	closeRet       map[int]bool         // listener step -> its Close has returned
 	policy         map[string]reqPolicy
+	refused        map[string]bool // requests the scripted peer answered with REQUEST_FAILURE
 }
 
 type reqPolicy struct {
@@ -495,6 +496,9 @@ func (s *sim) onWrite(b []byte) {
 			return
 		}
 		if pol.deny {
+			s.mu.Lock()
+			s.refused[name+"|"+string(rest[1:])] = true
+			s.mu.Unlock()
 			s.p.send([]byte{82})
 		} else if pol.port != 0 {
 			s.p.send(append([]byte{81}, sshU32(pol.port)...))
@@ -667,7 +671,7 @@ func exec(line string) string {
 		addrs = append(addrs, parseAddr(a))
 	}
 	toks := o.List("sched")
-	s := &sim{p: newPipe(), listeners: map[int]net.Listener{}, closeRet: map[int]bool{}, policy: map[string]reqPolicy{}, pendingAccepts: map[int]int{}}
+	s := &sim{p: newPipe(), listeners: map[int]net.Listener{}, closeRet: map[int]bool{}, policy: map[string]reqPolicy{}, pendingAccepts: map[int]int{}, refused: map[string]bool{}}
 	s.p.onWrite = s.onWrite
 	s.c = ssh.VerifC37NewClient(s.p, "SSH-2.0-verif")
 	go func() {
@@ -706,6 +710,7 @@ func exec(line string) string {
 			}
 			s.mu.Lock()
 			s.policy[name+"|"+string(payload)] = reqPolicy{deny: bang, port: uint32(a.assigned)}
+			s.refused[name+"|"+string(payload)] = false
 			s.listeners[step] = nil
 			s.mu.Unlock()
 			s.call(-1, func() string {
@@ -724,7 +729,12 @@ func exec(line string) string {
 					}
 				}
 				if err != nil {
-					if strings.Contains(err.Error(), "denied by peer") {
+					// classified by what happened on the wire, never by the error text: the peer answered this
+					// call's forward request with REQUEST_FAILURE ⇒ denied; otherwise the request could not be made
+					s.mu.Lock()
+					den := s.refused[name+"|"+string(payload)]
+					s.mu.Unlock()
+					if den {
 						return fmt.Sprintf("L%d=den", step)
 					}
 					return fmt.Sprintf("L%d=err", step)
